@@ -80,7 +80,7 @@ Proof.
   - rewrite mc_encode_colors. apply decode_colors. rewrite map_length. apply materials_count.
   - intros mat. unfold mc_get_color, mc_default. destruct (lookup mat (mc_materials T)) as [d|] eqn:E; [|reflexivity].
     f_equal. apply Hget. now apply lookup_in.
-  - rewrite !mc_encode_colors. f_equal. f_equal. apply map_ext_in. exact Hget.
+  - rewrite !mc_encode_colors. rewrite (map_ext_in _ _ _ Hget). reflexivity.
   - apply map_fst_combine. unfold mc_order. rewrite !map_length. reflexivity.
 Qed.
 
